@@ -1,5 +1,5 @@
 SPECIFICATION Spec
 CONSTANTS
-  Strict = TRUE
+  Mode = "contract"
 POSTCONDITION Accepted
 CHECK_DEADLOCK FALSE
